@@ -145,7 +145,24 @@ func ruleS5(c *Ctx) {
 
 func (c *Ctx) checkCloseOnce(fn *ssa.Function, ch *ssa.Parameter, a *storeAnchors) {
 	c.analysed(funcName(fn))
-	undec := ""
+	badFacts, undec, nrets, npaths := c.closeAnalysis(fn, ch, a, 0)
+	key := funcName(fn) + " close(" + ch.Name() + ")"
+	switch {
+	case nrets == 0:
+		c.undecided(key, fn.Pos(), "no reachable return")
+	case len(badFacts) > 0:
+		c.bad(key, fn.Pos(), "%s", strings.Join(uniq(badFacts), "; "))
+	case undec != "":
+		c.undecided(key, fn.Pos(), "%s", undec)
+	default:
+		c.ok(key, fn.Pos(), "%d returns, %d (return,state) pairs: exactly one close (direct, deferred, transferred to the wrapped driver or to a helper that closes exactly once) on each; nil-channel paths close nothing", nrets, npaths)
+	}
+}
+
+// closeAnalysis counts, on every path to every return of fn, the closes of channel parameter ch: close(ch), a deferred
+// close, handing ch to a storage interface method, or handing it to a same-package helper that itself closes its
+// parameter exactly once on every path (analysed recursively).
+func (c *Ctx) closeAnalysis(fn *ssa.Function, ch *ssa.Parameter, a *storeAnchors, depth int) (badFacts []string, undec string, nrets, npaths int) {
 	isTransfer := func(cc *ssa.CallCommon) bool {
 		// passing the channel to a method of storage.Graph / storage.Store (interface call or concrete implementer)
 		passes := false
@@ -165,6 +182,18 @@ func (c *Ctx) checkCloseOnce(fn *ssa.Function, ch *ssa.Parameter, a *storeAnchor
 			for _, n := range append(append([]*types.Named{}, a.graphImpls...), a.storeImpls...) {
 				if rn == n {
 					return true
+				}
+			}
+		}
+		if callee := helperCallee(fn, cc); callee != nil && depth < 3 {
+			for i, arg := range cc.Args {
+				if isValueOfParam(arg, ch) && i < len(callee.Params) {
+					bf, ud, nr, _ := c.closeAnalysis(callee, callee.Params[i], a, depth+1)
+					if len(bf) == 0 && ud == "" && nr > 0 {
+						return true
+					}
+					undec = "the channel is passed to " + calleeName(cc) + ", which does not close it exactly once on every path"
+					return false
 				}
 			}
 		}
@@ -255,12 +284,7 @@ func (c *Ctx) checkCloseOnce(fn *ssa.Function, ch *ssa.Parameter, a *storeAnchor
 	}
 	atRet, _ := flow(c, fn, closeState{}, transfer, edge)
 	rets := c.returnsOf(fn)
-	if len(rets) == 0 {
-		c.undecided(funcName(fn)+" close("+ch.Name()+")", fn.Pos(), "no reachable return")
-		return
-	}
-	var badFacts []string
-	npaths := 0
+	nrets = len(rets)
 	for _, r := range rets {
 		for s := range atRet[r] {
 			npaths++
@@ -276,15 +300,7 @@ func (c *Ctx) checkCloseOnce(fn *ssa.Function, ch *ssa.Parameter, a *storeAnchor
 		}
 	}
 	sort.Strings(badFacts)
-	key := funcName(fn) + " close(" + ch.Name() + ")"
-	switch {
-	case len(badFacts) > 0:
-		c.bad(key, fn.Pos(), "%s", strings.Join(uniq(badFacts), "; "))
-	case undec != "":
-		c.undecided(key, fn.Pos(), "%s", undec)
-	default:
-		c.ok(key, fn.Pos(), "%d returns, %d (return,state) pairs: exactly one close (direct, deferred or transferred) on each; nil-channel paths close nothing", len(rets), npaths)
-	}
+	return
 }
 
 func uniq(xs []string) []string {
@@ -628,6 +644,102 @@ func guardedAccesses(fn *ssa.Function, guarded map[*types.Var]bool) []guardedAcc
 
 // lockFlow runs the lock-state analysis of fn for the given lock field.
 func (c *Ctx) lockFlow(fn *ssa.Function, lock *types.Var) func(ssa.Instruction) map[lockState]bool {
+	return c.lockFlowFrom(fn, lock, lkNone)
+}
+
+// callSiteIndex: for every module function, the instructions that call it statically, and whether it is also used as
+// a value (stored, passed, deferred through a variable), in which case its callers are not all known.
+type callSiteIdx struct {
+	sites   map[*ssa.Function][]ssa.Instruction
+	escapes map[*ssa.Function]bool
+}
+
+func (c *Ctx) callSites() *callSiteIdx {
+	if c.csIdx != nil {
+		return c.csIdx
+	}
+	idx := &callSiteIdx{sites: map[*ssa.Function][]ssa.Instruction{}, escapes: map[*ssa.Function]bool{}}
+	for _, fn := range c.srcFuncs() {
+		allInstrs(fn, func(in ssa.Instruction) {
+			cc := callCommon(in)
+			var ops []*ssa.Value
+			for _, op := range in.Operands(ops) {
+				f, ok := (*op).(*ssa.Function)
+				if !ok {
+					continue
+				}
+				if cc != nil && !cc.IsInvoke() && op == &cc.Value {
+					if _, isCall := in.(*ssa.Call); isCall {
+						idx.sites[f] = append(idx.sites[f], in)
+						continue
+					}
+				}
+				idx.escapes[f] = true
+			}
+		})
+	}
+	c.csIdx = idx
+	return idx
+}
+
+// entryLockMode: the weakest mode of the owner's lock that is certainly held whenever the unexported method fn of
+// the owner starts running — the minimum, over all its call sites, of the mode the caller holds there (callers that
+// are such helpers themselves are resolved recursively). Exported methods, methods used as values, methods that
+// operate the lock themselves and methods called on another object start with nothing held.
+func (c *Ctx) entryLockMode(fn *ssa.Function, o lockOwner, seen map[*ssa.Function]bool) uint8 {
+	if fn == nil || seen[fn] || fn.Parent() != nil || token.IsExported(fn.Name()) || fn.Signature.Recv() == nil || namedOf(fn.Signature.Recv().Type()) != o.named {
+		return lkNone
+	}
+	seen[fn] = true
+	defer delete(seen, fn)
+	idx := c.callSites()
+	if idx.escapes[fn] || len(idx.sites[fn]) == 0 {
+		return lkNone
+	}
+	ops := false
+	allInstrs(fn, func(in ssa.Instruction) {
+		if cc := callCommon(in); cc != nil && lockOp(cc, o.lock) != "" {
+			ops = true
+		}
+	})
+	if ops {
+		return lkNone
+	}
+	mode := uint8(lkW)
+	for _, site := range idx.sites[fn] {
+		caller := site.Parent()
+		cc := callCommon(site)
+		// same object: the receiver argument is the caller's own receiver
+		top := caller
+		for top.Parent() != nil {
+			top = top.Parent()
+		}
+		if len(cc.Args) == 0 || len(top.Params) == 0 || top.Signature.Recv() == nil || !strings.HasPrefix(c.term(cc.Args[0]), c.term(top.Params[0])) || c.term(cc.Args[0]) != c.term(top.Params[0]) {
+			return lkNone
+		}
+		init := uint8(lkNone)
+		if caller.Parent() == nil {
+			init = c.entryLockMode(caller, o, seen)
+		}
+		at := c.lockFlowFrom(caller, o.lock, init)
+		worst := uint8(lkW)
+		states := at(site)
+		if len(states) == 0 {
+			continue // unreachable call
+		}
+		for st := range states {
+			if st.mode < worst {
+				worst = st.mode
+			}
+		}
+		if worst < mode {
+			mode = worst
+		}
+	}
+	return mode
+}
+
+func (c *Ctx) lockFlowFrom(fn *ssa.Function, lock *types.Var, init uint8) func(ssa.Instruction) map[lockState]bool {
 	transfer := func(s lockState, in ssa.Instruction) lockState {
 		if call, ok := in.(*ssa.Call); ok {
 			switch lockOp(&call.Call, lock) {
@@ -641,7 +753,7 @@ func (c *Ctx) lockFlow(fn *ssa.Function, lock *types.Var) func(ssa.Instruction) 
 		}
 		return s
 	}
-	_, at := flow(c, fn, lockState{}, transfer, nil)
+	_, at := flow(c, fn, lockState{mode: init}, transfer, nil)
 	return at
 }
 
@@ -772,7 +884,11 @@ func ruleS3(c *Ctx) {
 					return
 				}
 				c.analysed(funcName(f))
-				at := c.lockFlow(f, o.lock)
+				entry := uint8(lkNone)
+				if f == fn {
+					entry = c.entryLockMode(fn, o, map[*ssa.Function]bool{})
+				}
+				at := c.lockFlowFrom(f, o.lock, entry)
 				isUnsafe := strings.HasPrefix(fn.Name(), "unsafe")
 				for _, a := range accs {
 					if fa := accessBase(a.instr); fa != nil && isFreshBase(fa) {
@@ -981,11 +1097,15 @@ func ruleS7(c *Ctx) {
 				}
 			}
 		})
-		var writes []guardedAccess
-		for _, ga := range guardedAccesses(fn, o.guarded) {
-			if ga.write {
-				writes = append(writes, ga)
+		// index writes of the batch, made directly or through same-package helpers the index is handed to
+		stores, _ := c.indexEffects(fn, o.guarded)
+		written := map[*types.Var]bool{}
+		var writes []ssa.Instruction
+		for _, e := range stores {
+			if e.inner != "" || e.outer == "" {
+				written[e.field] = true
 			}
+			writes = append(writes, e.top)
 		}
 		switch {
 		case len(onCycle) > 0:
@@ -995,14 +1115,14 @@ func ruleS7(c *Ctx) {
 		default:
 			okAll := true
 			for _, w := range writes {
-				if !fi.instrDominates(locks[0], w.instr) {
+				if !fi.instrDominates(locks[0], w) {
 					okAll = false
 				}
 			}
-			if okAll && len(writes) >= 7 {
-				c.ok(key, fn.Pos(), "one Lock dominating all %d index writes; release only by defer; no lock operation on a cycle", len(writes))
+			if okAll && len(written) >= len(o.guarded) {
+				c.ok(key, fn.Pos(), "one Lock dominating the writes of all %d indexes; release only by defer; no lock operation on a cycle", len(written))
 			} else if okAll {
-				c.undecided(key, fn.Pos(), "only %d index writes found", len(writes))
+				c.undecided(key, fn.Pos(), "element writes found for only %d of %d indexes", len(written), len(o.guarded))
 			} else {
 				c.bad(key, fn.Pos(), "an index write is not dominated by the Lock")
 			}
